@@ -492,6 +492,8 @@ model(
         connected=Bool,
         connection_result=Opt(Inst('ghost:Future')),
         state=IntRange(0, 5),
+        # only read by log lines (needed when a counter-model is replayed natively)
+        source_cid=IntRange(0, 0xFFFF), psm=Int, mtu=Int, mps=Int, peer_credits=Int,
     ),
     methods={'emit': Callback('emit', effect=chan_emit)},
 )
@@ -521,8 +523,11 @@ contract(
         # unexpected: ignored
         implies(old.self.connection_result is None, self.destination_cid == old.self.destination_cid and self.credits == old.self.credits and self.state == old.self.state),
         self.connection_result is None,
+        # the waiter is released exactly once, with the right outcome
+        ghost.resolved == old.ghost.resolved + ite(old.self.connection_result is not None and response.result == LE_OK, 1, 0),
+        ghost.failed == old.ghost.failed + ite(old.self.connection_result is not None and response.result != LE_OK, 1, 0),
     ],
-    ensures_names=['accepted-parameters-as-on-the-wire', 'refused', 'unexpected-ignored', 'waiter-cleared'],
+    ensures_names=['accepted-parameters-as-on-the-wire', 'refused', 'unexpected-ignored', 'waiter-cleared', 'resolved-once', 'failed-once'],
     modifies=['self.destination_cid', 'self.peer_mtu', 'self.peer_mps', 'self.credits', 'self.connected', 'self.state', 'self.connection_result', 'ghost.resolved', 'ghost.failed', 'ghost.events'],
     inline=['LeCreditBasedChannel._change_state', 'L2capError.__init__', 'ProtocolError.__init__', 'BaseError.__init__'],
 )
@@ -838,4 +843,174 @@ lemma(
     modifies=['rx.in_sdu', 'rx.in_sdu_length', 'rx.peer_credits', 'ghost.sunk', 'ghost.nsdu', 'ghost.last', 'ghost.cr_frames', 'ghost.cr_total', 'ghost.cr_cid',
               'ghost.cr_last', 'ghost.rbuf', 'ghost.rout', 'ghost.rn'],
     uses=['bumble.l2cap:LeCreditBasedChannel.on_pdu'],
+)
+
+
+# ---------------------------------------------------------------------------
+# two-party credit ledger under arbitrary (order preserving) delays: safety shadow of "the transfer completes"
+# ---------------------------------------------------------------------------
+# ghost.k frames sent by tx, ghost.rxn frames that reached rx (k - rxn in flight);
+# ghost.cr_total credits returned by rx, ghost.cr_delivered credits that reached tx (the difference is in flight)
+LEDGER_GHOST = dict(rxn=Int, cr_delivered=Int, **TX_GHOST, **RX_GHOST)
+RX_SIDE = Inst('bumble.l2cap:LeCreditBasedChannel', sink=Callback('sink', effect=rx_sink), out_sdu=Any)
+TX_SIDE = Inst('bumble.l2cap:LeCreditBasedChannel', sink=Any, in_sdu=Any)
+
+
+def two_party_ledger(tx, rx, ghost):
+    return [
+        # held by the sender + on their way back + spent on frames still on their way == what the receiver still allows
+        tx.credits + (ghost.cr_total - ghost.cr_delivered) + (ghost.k - ghost.rxn) == rx.peer_credits,
+        ghost.cr_delivered <= ghost.cr_total,
+        ghost.rxn <= ghost.k,
+        tx.credits >= 0,
+        wf_ledger(rx),
+        # no deadlock: a sender without credits is never left alone; a frame or a credit indication is on its way
+        implies(tx.credits == 0, ghost.k - ghost.rxn >= 1 or ghost.cr_total - ghost.cr_delivered >= 1),
+    ]
+
+
+LEDGER_NAMES = ['two-party-ledger', 'grants-in-flight>=0', 'frames-in-flight>=0', 'credits>=0', 'peer-holds-a-credit', 'no-deadlock']
+
+
+def lemma_ledger_send(tx, rx, data):
+    tx.write(data)
+
+
+def lemma_ledger_recv(tx, rx, pdu, ghost):
+    ghost.rxn = ghost.rxn + 1  # the oldest frame in flight arrives
+    rx.on_pdu(pdu)
+
+
+def lemma_ledger_credit(tx, rx, a, ghost):
+    ghost.cr_delivered = ghost.cr_delivered + a  # a credit indication (or part of the credits in flight) arrives
+    ghost.c = ghost.c + a
+    tx.on_credits(a)
+
+
+_LEDGER_COMMON = dict(prop='C07', ghost=LEDGER_GHOST, ensures=lambda tx, rx, ghost: two_party_ledger(tx, rx, ghost), ensures_names=LEDGER_NAMES)
+_TX_MOD2 = ['tx.credits', 'tx.out_sdu', 'tx.out_queue', 'tx.drained', 'ghost.c', 'ghost.k', 'ghost.rbuf', 'ghost.rout', 'ghost.rn']
+_RX_MOD2 = ['rx.in_sdu', 'rx.in_sdu_length', 'rx.peer_credits', 'ghost.sunk', 'ghost.nsdu', 'ghost.last', 'ghost.cr_frames', 'ghost.cr_total', 'ghost.cr_cid', 'ghost.cr_last']
+
+lemma(
+    'coc_ledger_send',
+    lemma_ledger_send,
+    params=dict(tx=TX_SIDE, rx=RX_SIDE, data=Bytes),
+    requires=lambda tx, rx, data, ghost: two_party_ledger(tx, rx, ghost) + [tx_params(tx, ghost), wf_tx(tx, ghost), len(data) >= 1],
+    modifies=_TX_MOD2,
+    uses=['bumble.l2cap:LeCreditBasedChannel.write'],
+    **_LEDGER_COMMON,
+)
+lemma(
+    'coc_ledger_recv',
+    lemma_ledger_recv,
+    params=dict(tx=TX_SIDE, rx=RX_SIDE, pdu=Bytes),
+    requires=lambda tx, rx, pdu, ghost: two_party_ledger(tx, rx, ghost)
+    + [ghost.k - ghost.rxn >= 1, wf_rx(rx), rx.peer_max_credits <= 65535, implies(len(rx_buf(rx) + pdu) >= 2, le16(rx_buf(rx) + pdu) >= 1)],
+    modifies=_RX_MOD2 + ['ghost.rxn'],
+    uses=['bumble.l2cap:LeCreditBasedChannel.on_pdu'],
+    **_LEDGER_COMMON,
+)
+lemma(
+    'coc_ledger_credit',
+    lemma_ledger_credit,
+    params=dict(tx=TX_SIDE, rx=RX_SIDE, a=IntRange(1, 0xFFFF)),
+    requires=lambda tx, rx, a, ghost: two_party_ledger(tx, rx, ghost) + [tx_params(tx, ghost), wf_tx(tx, ghost), a <= ghost.cr_total - ghost.cr_delivered],
+    modifies=_TX_MOD2 + ['ghost.cr_delivered'],
+    uses=['bumble.l2cap:LeCreditBasedChannel.on_credits'],
+    **_LEDGER_COMMON,
+)
+
+
+# ---------------------------------------------------------------------------
+# negotiation, initiator side: the responses reach the channel(s) that sent the request
+# ---------------------------------------------------------------------------
+CONN_VIEW = Inst('bumble.l2cap:LeCreditBasedChannel#conn')
+model('bumble.l2cap:ChannelManager#init', fields=dict(channels=Any, le_coc_requests=Any, pending_credit_based_connections=Any))
+
+
+def lemma_le_response(mgr, connection, ch, request, response, known, ghost):
+    """state as create_le_credit_based_channel leaves it while it waits: the channel under its source CID in
+    `channels`, the request under its identifier in `le_coc_requests`"""
+    h = connection.handle
+    row = {}
+    row[request.source_cid] = ch
+    mgr.channels = {}
+    mgr.channels[h] = row
+    mgr.le_coc_requests = {}
+    if known:
+        mgr.le_coc_requests[response.identifier] = request
+    waiting = ch.connection_result is not None
+    dcid0 = ch.destination_cid
+    credits0 = ch.credits
+    state0 = ch.state
+
+    mgr.on_l2cap_le_credit_based_connection_response(connection, LE_SIG_CID, response)
+
+    assert response.identifier not in mgr.le_coc_requests  # a response is consumed once
+    if known and waiting and response.result == LE_OK:
+        # the initiator takes the peer's endpoint, MTU, MPS and credits exactly as in the response
+        assert ch.destination_cid == response.destination_cid and ch.peer_mtu == response.mtu and ch.peer_mps == response.mps
+        assert ch.credits == response.initial_credits and ch.state == CONNECTED
+        assert ghost.resolved == 1 and ghost.failed == 0
+    if known and waiting and response.result != LE_OK:
+        assert ch.state == CONNECTION_ERROR and ch.credits == credits0 and ghost.failed == 1 and ghost.resolved == 0
+    if not known:
+        assert ch.destination_cid == dcid0 and ch.credits == credits0 and ch.state == state0 and ghost.resolved == 0 and ghost.failed == 0
+
+
+lemma(
+    'coc_le_response',
+    lemma_le_response,
+    prop='C07',
+    params=dict(mgr=Inst('bumble.l2cap:ChannelManager#init'), connection=Inst('ghost:Conn'), ch=CONN_VIEW,
+                request=Inst('bumble.l2cap:L2CAP_LE_Credit_Based_Connection_Request'), response=Inst('bumble.l2cap:L2CAP_LE_Credit_Based_Connection_Response'), known=Bool),
+    ghost=dict(resolved=Int, failed=Int, events=Int),
+    requires=lambda ghost: [ghost.resolved == 0, ghost.failed == 0],
+    uses=['bumble.l2cap:LeCreditBasedChannel.on_connection_response'],
+    inline=['ChannelManager.on_l2cap_le_credit_based_connection_response', 'ChannelManager.find_channel'],
+)
+
+
+def lemma_enhanced_response(mgr, connection, ch0, ch1, response, known, ghost):
+    """state as create_enhanced_credit_based_channels leaves it while it waits: (future, [channels]) under the
+    request identifier in `pending_credit_based_connections[handle]`"""
+    h = connection.handle
+    mgr.pending_credit_based_connections = {}
+    if known:
+        row = {}
+        row[response.identifier] = (ghost.fut, [ch0, ch1])
+        mgr.pending_credit_based_connections[h] = row
+    s0 = ch0.state
+    s1 = ch1.state
+
+    mgr.on_l2cap_credit_based_connection_response(connection, LE_SIG_CID, response)
+
+    if known and response.result == ECRED_RESULT.ALL_CONNECTIONS_SUCCESSFUL:
+        # the i-th channel of the request gets the i-th endpoint of the response, and the common parameters
+        assert ch0.destination_cid == response.destination_cid[0] and ch1.destination_cid == response.destination_cid[1]
+        assert ch0.peer_mtu == response.mtu and ch0.peer_mps == response.mps and ch0.credits == response.initial_credits and ch0.state == CONNECTED
+        assert ch1.peer_mtu == response.mtu and ch1.peer_mps == response.mps and ch1.credits == response.initial_credits and ch1.state == CONNECTED
+        assert ghost.resolved == 1 and ghost.failed == 0
+    if known and response.result != ECRED_RESULT.ALL_CONNECTIONS_SUCCESSFUL:
+        assert ch0.state == CONNECTION_ERROR and ch1.state == CONNECTION_ERROR and ghost.failed == 1 and ghost.resolved == 0
+    if not known:
+        assert ch0.state == s0 and ch1.state == s1 and ghost.resolved == 0 and ghost.failed == 0
+
+
+model(
+    'bumble.l2cap:L2CAP_Credit_Based_Connection_Response#2',
+    fields=dict(identifier=IntRange(0, 255), mtu=IntRange(0, 0xFFFF), mps=IntRange(0, 0xFFFF), initial_credits=IntRange(0, 0xFFFF),
+                result=OneOf(*list(ECRED_RESULT)), destination_cid=ConcList(IntRange(0, 0xFFFF), 2)),
+)
+lemma(
+    'coc_enhanced_response_2',
+    lemma_enhanced_response,
+    prop='C07',
+    params=dict(mgr=Inst('bumble.l2cap:ChannelManager#init'), connection=Inst('ghost:Conn'), ch0=CONN_VIEW, ch1=CONN_VIEW,
+                response=Inst('bumble.l2cap:L2CAP_Credit_Based_Connection_Response#2'), known=Bool),
+    ghost=dict(resolved=Int, failed=Int, events=Int, fut=Inst('ghost:Future')),
+    requires=lambda ghost: [ghost.resolved == 0, ghost.failed == 0],
+    uses=['bumble.l2cap:LeCreditBasedChannel.on_enhanced_connection_response'],
+    inline=['ChannelManager.on_l2cap_credit_based_connection_response', 'L2capError.__init__', 'ProtocolError.__init__', 'BaseError.__init__'],
+    note='bounded: a request for 2 channels answered with 2 endpoints (the specification allows up to 5)',
 )
